@@ -5,6 +5,7 @@
    owner of ONE coherent NS set of the question's class sent by the servers of a zone strictly above it
    and lies on the path to the name being resolved, its hosts are targets of that NS set and its server
    addresses are usable (neither loopback nor local). *)
+From Coq Require Import String.
 From Sdns Require Import Common.Base Gen.C07 C07.Model C07.Proofs_names C07.Proofs_glue C07.Proofs_referral C07.Proofs_gluehist.
 Open Scope N_scope.
 
@@ -220,3 +221,105 @@ Lemma deleg_apply_rcode_blind local st auth level q rc rc' a n x order answers :
   deleg_apply local st (DelegMsg auth level q (mk_umsg rc a n x) order answers) =
   deleg_apply local st (DelegMsg auth level q (mk_umsg rc' a n x) order answers).
 Proof. reflexivity. Qed.
+
+(* ------------------------------------------------------------ searchCache on such a cache *)
+Lemma deleg_get_in k c e : deleg_get k c = Some e -> exists m, In (m, e) c /\ name_eqb k m = true.
+Proof.
+  induction c as [|[m v] r IH]; cbn; [discriminate|].
+  destruct (name_eqb k m) eqn:E.
+  - intros H. injection H as <-. exists m. auto.
+  - intros H. destruct (IH H) as [m' [Hin He]]. exists m'. auto.
+Qed.
+
+Lemma search_walk_sound dc n : forall k z e,
+  search_walk dc n k = Some (z, e) -> exists j, (0 < j <= k)%nat /\ z = firstn j n /\ deleg_get z dc = Some e.
+Proof.
+  induction k as [|k IH]; intros z e; cbn [search_walk]; [discriminate|].
+  destruct (deleg_get (firstn (S k) n) dc) as [e'|] eqn:G.
+  - intros H. injection H as <- <-. exists (S k). repeat split; [lia | lia | exact G].
+  - intros H. destruct (IH _ _ H) as [j [Hj Hr]]. exists j. split; [lia | exact Hr].
+Qed.
+
+Lemma compare_suffix_sub z n : is_sub z n = true -> compare_suffix n z = length z.
+Proof. unfold is_sub. rewrite compare_suffix_sym. intros H. apply Nat.eqb_eq in H. exact H. Qed.
+
+(* whatever history filled the cache: the servers a later resolution of [qname] starts with carry a zone label
+   that encloses qname (for a DS question: the parent side of it), are filed under that very name, and the
+   level seeded for the glue test is that zone's depth *)
+Lemma search_cache_sound local evs st results ds qname z e lv :
+  deleg_history local ([], []) evs = (st, results) ->
+  search_cache (snd st) ds qname = (Some (z, e), lv) ->
+  name_eqb (de_zone e) z = true /\ is_sub (de_zone e) qname = true /\ lv = length (de_zone e) /\
+  (ds = true -> (length (de_zone e) < length qname)%nat) /\
+  exists k, In (k, e) (snd st) /\ deleg_entry_ok local evs k e.
+Proof.
+  intros H E. unfold search_cache in E. cbv zeta in E.
+  match type of E with context [search_walk ?a ?b ?c] => destruct (search_walk a b c) as [[z' e']|] eqn:W end; [|discriminate E].
+  injection E as <- <- <-.
+  destruct (search_walk_sound _ _ _ _ _ W) as [j [Hj [Hz G]]].
+  destruct (deleg_get_in _ _ _ G) as [m [Hin Hm]].
+  pose proof (proj1 (deleg_history_sound _ _ _ _ H) m e' Hin) as Hok.
+  assert (Hzone : name_eqb (de_zone e') z' = true).
+  { destruct Hok as [? [? [? [? [? [? [_ [Hk _]]]]]]]]. rewrite name_eqb_sym in Hm. eapply name_eqb_trans; eauto. }
+  set (start := if ds then removelast qname else qname) in *.
+  assert (Hstart : exists s, start = firstn s qname /\ (s <= length qname)%nat /\ (ds = true -> (s < length qname)%nat \/ qname = [])).
+  { destruct ds; subst start.
+    - exists (pred (length qname)). split; [apply removelast_firstn_len|]. split; [lia|]. intros _.
+      destruct qname; [right; reflexivity | left; cbn; lia].
+    - exists (length qname). split; [symmetry; apply firstn_all | split; [lia | discriminate]]. }
+  destruct Hstart as [s [Hs [Hsl Hds]]].
+  assert (Hlstart : length start = s) by (rewrite Hs, firstn_length; lia).
+  assert (Hz' : z' = firstn j qname) by (rewrite Hz, Hs, firstn_firstn; f_equal; lia).
+  assert (Hlz : length z' = j) by (rewrite Hz', firstn_length; lia).
+  assert (Hsubz : is_sub z' qname = true) by (rewrite Hz'; apply firstn_is_sub).
+  assert (Hlen : length (de_zone e') = length z').
+  { apply name_eqb_spec in Hzone. rewrite <- (canon_length (de_zone e')), Hzone, canon_length. reflexivity. }
+  split; [exact Hzone|]. split; [rewrite (is_sub_respects_eq_l _ _ qname Hzone); exact Hsubz|].
+  split; [rewrite (compare_suffix_sub _ _ Hsubz); lia|].
+  split; [|exists m; auto].
+  intros Hd. destruct (Hds Hd) as [H1|H1]; [lia|]. subst qname. cbn in Hsl. lia.
+Qed.
+
+(* ------------------------------------------------------------ non-vacuity *)
+Definition L (s : string) : label := s2b s.
+Definition ex_q : question := mk_q [L "com"; L "attacker"; L "sub"; L "x"] 1 1.
+Definition ex_ns (owner : name) (host : name) : rr := mk_rr owner T_NS 1 300 (RdName host).
+Definition ex_a (owner : name) (ip : list N) : rr := mk_rr owner T_A 1 300 (RdA ip).
+Definition ex_sub : name := [L "com"; L "attacker"; L "sub"].
+Definition ex_ns1 : name := ex_sub ++ [L "ns1"].
+Definition ex_ns2 : name := ex_sub ++ [L "ns2"].
+(* attacker.com.'s servers delegate sub.attacker.com. to ns1 (glue) and ns2 (no glue, its address is looked up) *)
+Definition ex_down : deleg_event :=
+  DelegMsg [L "com"; L "attacker"] 2 ex_q
+    (mk_umsg 0 [] [ex_ns ex_sub ex_ns1; ex_ns ex_sub ex_ns2] [ex_a ex_ns1 [198;51;100;1]])
+    [ex_ns1; ex_ns2] [(ex_ns2, [ex_a ex_ns2 [198;51;100;2]])].
+(* the same servers put 'victim.com. NS ns.attacker.com.' (glue inside their zone) into an NXDOMAIN reply *)
+Definition ex_sideways (rc : N) : deleg_event :=
+  DelegMsg [L "com"; L "attacker"] 2 ex_q
+    (mk_umsg rc [] [ex_ns [L "com"; L "victim"] [L "com"; L "attacker"; L "ns"]] [ex_a [L "com"; L "attacker"; L "ns"] [203;0;113;66]])
+    [[L "com"; L "attacker"; L "ns"]] [].
+
+(* a valid referral is stored; while ns2's address is looked up the provisional entry is on file with the
+   zone label sub.attacker.com. and the one server known so far *)
+Example ex_deleg_stored_with_provisional :
+  let '(st, rs) := deleg_history [] ([], []) [ex_down] in
+  map dr_outcome rs = [DoStored] /\
+  map dr_snaps rs = [[(true, mk_de ex_sub [ex_ns1; ex_ns2] [IP4 3325256705])]] /\
+  snd st = [(ex_sub, mk_de ex_sub [ex_ns1; ex_ns2] [IP4 3325256705; IP4 3325256706])].
+Proof. vm_compute. repeat split. Qed.
+
+(* the sideways NS set is refused under every response code, NXDOMAIN included, and nothing reaches the cache *)
+Example ex_deleg_sideways_in_error_reply :
+  forallb (fun rc => match deleg_history [] ([], []) [ex_down; ex_sideways rc] with
+                     | (st, [_; r]) => match dr_outcome r, deleg_get [L "com"; L "victim"] (snd st) with DoRejected, None => true | _, _ => false end
+                     | _ => false
+                     end) [0; 1; 2; 3; 4; 5; 6; 9] = true.
+Proof. vm_compute. reflexivity. Qed.
+
+(* what the rule keeps out: with the validity test skipped for error replies the entry victim.com. -> attacker's
+   server would be on file (computed with the rule removed by hand: check_glue + store) *)
+Example ex_deleg_sideways_would_poison :
+  let m := mk_umsg 3 [] [ex_ns [L "com"; L "victim"] [L "com"; L "attacker"; L "ns"]] [ex_a [L "com"; L "attacker"; L "ns"] [203;0;113;66]] in
+  valid_referral (extract_info (u_ns m)) [L "com"; L "attacker"] ex_q = false /\
+  gr_servers (check_glue false [] 2 (q_name ex_q) (di_hosts (extract_info (u_ns m))) (u_extra m)) = [IP4 3405803842].
+Proof. vm_compute. split; reflexivity. Qed.
